@@ -137,12 +137,21 @@ theorem C11_lessthan_reported (c : Curve) (ss : List LessThanPass.Stmt) (v : Str
       ¬ ∃ k, LessThanPass.Input.num2bits v (some k) ∈ LessThanPass.inputs ss ∧ rangeChecked c k = true :=
   LessThanPass.mem_reported c ss v
 
-/-- … and a component counts as `Num2Bits` of some size only if every instantiation that may be this component is a `Num2Bits` of
-    that size: "counts as range-checked by `Num2Bits(k)` only if" -/
-theorem C11_lessthan_component (cs : List (LessThanPass.Key × LessThanPass.Inst)) (k : LessThanPass.Key) (s : Option Nat) (t : String)
-    (h : LessThanPass.getComponent cs k = some (.num2bits s t)) :
-    ∀ e, e ∈ cs → LessThanPass.maybeEqual e.1 k = true → ∃ s', e.2 = .num2bits s' t :=
-  LessThanPass.getComponent_num2bits cs k s t h
+/-- … a component counts as `Num2Bits` of some size only if every instantiation that may be this component is a `Num2Bits` of
+    that size ("counts as range-checked by `Num2Bits(k)` only if") … -/
+theorem C11_lessthan_component (cs : List (LessThanPass.Key × LessThanPass.Inst)) (k : LessThanPass.Key) (s : Option Nat)
+    (h : LessThanPass.bitSize (LessThanPass.candidates cs k) = some s) :
+    ∃ t, ∀ e, e ∈ cs → LessThanPass.maybeEqual e.1 k = true → ∃ s', e.2 = .num2bits s' t := by
+  obtain ⟨_, t, ht⟩ := LessThanPass.bitSize_some _ s h
+  exact ⟨t, fun e he hm => ht e.2 ((LessThanPass.mem_candidates cs k e.2).mpr ⟨e, he, hm, rfl⟩)⟩
+
+/-- … while its inputs are examined as inputs of `LessThan` as soon as *one* such instantiation is a `LessThan` (the review of the
+    repair ee9259e: merging the instantiations of a component to "unknown" had silenced the warnings for a component that is
+    `LessThan` on one branch and something else on the other) -/
+theorem C11_lessthan_examined (cs : List (LessThanPass.Key × LessThanPass.Inst)) (k : LessThanPass.Key) :
+    LessThanPass.mayBeLessThan (LessThanPass.candidates cs k) = true ↔
+      ∃ e, e ∈ cs ∧ LessThanPass.maybeEqual e.1 k = true ∧ e.2 = .lessThan := by
+  rw [LessThanPass.mayBeLessThan_iff, LessThanPass.mem_candidates]
 
 /-- the candidates include every instantiation whose access denotes the same component in some execution that agrees with the
     index values constant propagation knows -/
@@ -157,6 +166,12 @@ example : LessThanPass.reported .bn254
      .inst ⟨"nb[2]", "nb", [.idx (some "f2")]⟩ (.num2bits (some 254) "254"), .inst ⟨"rb", "rb", []⟩ (.num2bits (some 8) "8"),
      .input ⟨"nb[i.1]", "nb", [.idx none]⟩ "in" false "a" none, .input ⟨"rb", "rb", []⟩ "in" false "b" none,
      .input ⟨"lt", "lt", []⟩ "in" true "a" none, .input ⟨"lt", "lt", []⟩ "in" true "b" none] = ["a"] := by
+  decide
+
+/-- non-vacuity: `c` is `LessThan` on one branch and another template on the other: both inputs are reported -/
+example : LessThanPass.reported .bn254
+    [.inst ⟨"c", "c", []⟩ .lessThan, .inst ⟨"c", "c", []⟩ .unknown,
+     .input ⟨"c", "c", []⟩ "in" true "a" none, .input ⟨"c", "c", []⟩ "in" true "b" none] = ["a", "b"] := by
   decide
 
 end Circomspect.C11
